@@ -48,6 +48,7 @@ class SR:
         self.depth = depth
         self.init = init or {}
         self.inlined = []         # callee paths analysed in place
+        self.sub_calls = []       # (line of the inlining call, callee fn, translated state) of calls made inside helpers
         self.body = body
         self.facts = facts
         self.eff = effects
@@ -283,6 +284,17 @@ class SR:
                 return (v[0], tuple(P) + tuple(v[1]))
             return v
 
+        # designated calls made inside the helper are call sites of this wrapper too: translate their states
+        for (cbb, cfn, cst) in list(sub.at_call) + [(None, f_, s_) for (_l, f_, s_) in sub.sub_calls]:
+            tst = dict(snapshot)
+            for key, v in cst.items():
+                if key[0] == 'F':
+                    tpath = tuple(P) + tuple(key[1])
+                    for kk in list(tst):
+                        if kk[0] == 'F' and kk[1] != tpath and path_related(kk[1], tpath):
+                            tst[kk] = TOP
+                    tst[('F', tpath)] = back(v)
+            self.sub_calls.append((t.get('line'), cfn, tst))
         writes = []
         for key, v in rs.items():
             if key[0] == 'F':
@@ -333,6 +345,10 @@ class SR:
         for bb, fn, st in self.at_call:
             last_call[bb] = (bb, fn, st)
         self.at_call = list(last_call.values())
+        lastsub = {}
+        for ln, fn, st in self.sub_calls:
+            lastsub[(ln, fn)] = (ln, fn, st)
+        self.sub_calls = list(lastsub.values())
         last_ret = {}
         for bb, st in self.at_return:
             last_ret[bb] = (bb, st)
@@ -373,6 +389,7 @@ def check_wrapper(rep, rule, body, facts, eff, callee_pred, mode_table, restore_
             n += 1
     # mode table at the designated call
     sites = [(bb, fn, st) for (bb, fn, st) in sr.at_call if fn and callee_pred(fn)]
+    sites += [(None, fn, st) for (_ln, fn, st) in sr.sub_calls if fn and callee_pred(fn)]
     if not sites:
         rep.missing(rule, body.path + ':core-call', 'no call to the core alignment routine found')
     for bb, fn, st in sites:
@@ -385,10 +402,11 @@ def check_wrapper(rep, rule, body, facts, eff, callee_pred, mode_table, restore_
                 continue
             for p in cands:
                 v = sr.read_field(st, p)
+                where_c = body.loc(bb) if bb is not None else where
                 if v == ('const', want):
-                    rep.ok(rule, key, body.loc(bb), 'const %d at call to %s' % (want, fn))
+                    rep.ok(rule, key, where_c, 'const %d at call to %s' % (want, fn))
                 else:
-                    rep.bad(rule, key, body.loc(bb),
+                    rep.bad(rule, key, where_c,
                             'mode table: self.%s holds %s at the call to %s, expected %d' % (
                                 '.'.join(p), fmt_val(v), fn, want))
     return n, len(sites), stored
